@@ -101,6 +101,9 @@ func genTG(t *rapid.T) TGCase {
 	return c
 }
 
+// tgTainted is set when a case of this process was abandoned on a watchdog.
+var tgTainted atomic.Bool
+
 type tgRun struct {
 	tg           *threadgroup.ThreadGroup
 	stopCalled   atomic.Bool
@@ -305,6 +308,11 @@ func runTG(c TGCase, cs *kit.CaseStats) error {
 			// threads that only wait for their context were never released
 			return fmt.Errorf("%s did not finish within %v: %d admitted thread(s) still wait for their context after Stop was called (context not cancelled by Stop); goroutines inside threadgroup:\n%s", what, closeWatchdog, r.running.Load(), p2px.ClipStacks(parked, 8))
 		}
+		// neither shape: the process itself did not get to run for the whole
+		// watchdog period (starved or frozen machine). The abandoned goroutines of
+		// this case stay behind, so the "nothing left inside the package" check
+		// of later cases in this process would see them: mark the process.
+		tgTainted.Store(true)
 		cs.Inconclusive("tg-watchdog")
 		return nil
 	}
@@ -349,8 +357,11 @@ func runTG(c TGCase, cs *kit.CaseStats) error {
 	if a, f := r.admitted.Load(), r.finished.Load(); a != f {
 		r.fail("%d threads admitted, %d finished", a, f)
 	}
-	// no goroutine of the group is left behind
-	if rest := p2px.WaitNoStacks(10*time.Second, "coreutils/threadgroup."); len(rest) > 0 {
+	// no goroutine of the group is left behind (not decidable once an earlier
+	// case of this process was abandoned on a watchdog)
+	if tgTainted.Load() {
+		cs.Class("leak-check-skipped(process-tainted-by-abandoned-case)")
+	} else if rest := p2px.WaitNoStacks(10*time.Second, "coreutils/threadgroup."); len(rest) > 0 {
 		r.fail("%d goroutine(s) still inside threadgroup after everything was cancelled and stopped:\n%s", len(rest), p2px.ClipStacks(rest, 4))
 	}
 	r.mu.Lock()
